@@ -131,3 +131,59 @@ Section Batched.
     extrap_full_pre logm fm xs (map (lag0_weight xs) xs) ys (if logm then map nln ys else ys) = extrap_full logm fm xs ys.
   Proof. unfold extrap_full_pre, extrap_full. rewrite extrap_entry_w_eq. reflexivity. Qed.
 End Batched.
+
+(** ** how the spacings are typed (integer / float, mixed): the typed call is the untyped one on the numbers denoted *)
+Lemma typing_irrelevant (xs xs' : list (@xval R)) (ys : list R) :
+  map xnum xs = map xnum xs' -> extrap_entry_typed xs ys = extrap_entry_typed xs' ys.
+Proof. unfold extrap_entry_typed. intros ->. reflexivity. Qed.
+
+Lemma typing_irrelevant_full (logm : bool) fm (xs xs' : list (@xval R)) (ys : list R) :
+  map xnum xs = map xnum xs' -> extrap_full_typed logm fm xs ys = extrap_full_typed logm fm xs' ys.
+Proof. unfold extrap_full_typed. intros ->. reflexivity. Qed.
+
+Lemma int_written_as_float (zs : list Z) :
+  map xnum (map (@XInt R) zs) = map xnum (map (fun z => XNum (IZR z)) zs).
+Proof. rewrite !map_map. reflexivity. Qed.
+
+Lemma typed_exact (cs : list R) (xs : list (@xval R)) :
+  length cs = length xs -> (1 <= length xs <= 6)%nat -> NoDup (map xnum xs) ->
+  extrap_entry_typed xs (map (peval cs) (map xnum xs)) = Some (hd 0 cs).
+Proof. intros Hl Hk Hd. unfold extrap_entry_typed. apply extrap_exact; rewrite ?map_length; assumption. Qed.
+
+Lemma NoDup_map_IZR (zs : list Z) : NoDup zs -> NoDup (map IZR zs).
+Proof. induction 1 as [|z t Hn Hd IH]; cbn [map]; constructor; [|exact IH].
+  intros Hin. apply in_map_iff in Hin. destruct Hin as (z' & He & Hin). apply eq_IZR in He. subst. contradiction. Qed.
+
+Lemma integer_spacings_exact (cs : list R) (zs : list Z) :
+  length cs = length zs -> (1 <= length zs <= 6)%nat -> NoDup zs ->
+  extrap_entry_typed (map XInt zs) (map (peval cs) (map IZR zs)) = Some (hd 0 cs).
+Proof. intros Hl Hk Hd.
+  assert (E : map xnum (map (@XInt R) zs) = map IZR zs) by (rewrite map_map; reflexivity).
+  rewrite <- E. apply typed_exact; rewrite ?map_length; try assumption. rewrite E. apply NoDup_map_IZR, Hd. Qed.
+
+Lemma integer_spacings_log_exact (cs : list R) (zs : list Z) (ys : list R) :
+  length cs = length zs -> (1 <= length zs <= 6)%nat -> NoDup zs ->
+  map ln ys = map (peval cs) (map IZR zs) ->
+  option_map exp (extrap_entry_typed (map XInt zs) (map ln ys)) = Some (exp (hd 0 cs)).
+Proof. intros Hl Hk Hd Hy. rewrite Hy, integer_spacings_exact by assumption. reflexivity. Qed.
+
+(** an implementation that keeps the weights of an all-integer list in an integer container (cut toward zero, or floored)
+    is not exact: f(x) = x on the spacings 2, 7, 11, 13 (true weights 91/45, -143/60, 91/36, -7/6). *)
+Lemma integer_weights_refuted :
+  exists (zs : list Z) (cs : list R), length cs = length zs /\ NoDup zs /\
+    extrap_entry_typed (map XInt zs) (map (peval cs) (map IZR zs)) = Some (hd 0 cs) /\
+    lagrange0_intweights Z.quot zs (map (peval cs) (map IZR zs)) <> hd 0 cs /\
+    lagrange0_intweights Z.div zs (map (peval cs) (map IZR zs)) <> hd 0 cs.
+Proof.
+  exists [2; 7; 11; 13]%Z, [0; 1; 0; 0].
+  assert (Hd : NoDup [2; 7; 11; 13]%Z) by (repeat constructor; cbn [In]; intuition discriminate).
+  split; [reflexivity|]. split; [exact Hd|]. split.
+  { apply integer_spacings_exact; [reflexivity | cbn; lia | exact Hd]. }
+  assert (Hq : map (zweight Z.quot [2; 7; 11; 13]%Z) [2; 7; 11; 13]%Z = [2; -2; 2; -1]%Z) by (vm_compute; reflexivity).
+  assert (Hf : map (zweight Z.div [2; 7; 11; 13]%Z) [2; 7; 11; 13]%Z = [2; -3; 2; -2]%Z) by (vm_compute; reflexivity).
+  unfold lagrange0_intweights. split.
+  - rewrite <- (map_map (zweight Z.quot [2; 7; 11; 13]%Z) (@nofZ R _)), Hq.
+    unfold lagrange0_w, nsum. cbn [map combine fold_right fst snd peval hd]. numR. lra.
+  - rewrite <- (map_map (zweight Z.div [2; 7; 11; 13]%Z) (@nofZ R _)), Hf.
+    unfold lagrange0_w, nsum. cbn [map combine fold_right fst snd peval hd]. numR. lra.
+Qed.
